@@ -21,6 +21,10 @@ Oracle (the property's own statement, independent of the model):
    of a value filled before, from a context yielded earlier or from another value of the same compute();
    after an aggressive in-place mutation of everything yielded, the filled values are unchanged and every
    later result equals that of a twin accumulator whose results are never touched.
+   The FillRequest adapter has no model (its request() yields values computed during an earlier fill): its cases
+   are judged by this oracle only.
+The oracle compares values, exceptions and the id() graph of dict/list/tuple objects; it does not compare private
+attributes of the elements.
 """
 import copy
 import itertools
@@ -34,59 +38,120 @@ PID = "C04"
 TITLE = "Context non-interference between Split branches and across accumulators"
 LEAN_MODULES = ["LenaModel.Props.C04"]
 LEAN_SOURCES = ["LenaModel/Model/C04.lean", "LenaModel/Model/C04Spec.lean", "LenaModel/Lemmas/C04.lean", "LenaModel/Lemmas/C04Alone.lean",
-                "LenaModel/Lemmas/C04Local.lean", "LenaModel/Lemmas/C04Fill.lean", "LenaModel/Props/C04.lean"]
+                "LenaModel/Lemmas/C04Local.lean", "LenaModel/Lemmas/C04Fill.lean", "LenaModel/Lemmas/C04Purpose.lean",
+                "LenaModel/Lemmas/C04Hist.lean", "LenaModel/Props/C04.lean"]
 DRIVER = "drivers/C04.lean"
+# the theorems that carry the property
 THEOREMS = [
+    # sentence 1 (a): what the branches are handed
     "Lena.C04.split_tokens_disjoint",
     "Lena.C04.fill_tokens_disjoint",
     "Lena.C04.zip_tokens_disjoint",
+    # sentence 1 (b): every branch computes what it computes alone (run; fill + compute/request; Zip)
     "Lena.C04.branch_alone_equiv",
     "Lena.C04.split_fill_alone_equiv",
     "Lena.C04.zip_fill_alone_equiv",
     "Lena.C04.harness_branches_local",
     "Lena.C04.harness_branch_alone_equiv",
-    "Lena.C04.accOps_freshYield",
+    "Lena.C04.harness_no_exception",
+    # sentence 2: every yielded context is new (all histories)
     "Lena.C04.acc_yield_fresh",
-    "Lena.C04.split_compute_fresh",
+    "Lena.C04.accOps_freshYield",
+    "Lena.C04.fcseq_freshYield",
     "Lena.C04.zip_compute_fresh",
+    "Lena.C04.split_compute_fresh",
+    "Lena.C04.split_hist_fresh",
+    # sentence 2, purpose clause: downstream in-place updates change no later result
+    "Lena.C04.accOps_tidy'",
+    "Lena.C04.downstream_updates_harmless",
+    "Lena.C04.downstream_updates_harmless_gen",
+]
+# true by definition of the model / glue / encoding lemmas: audited, not counted as obligations of the property.
+# The first five document the aliasing that is the *specified* result of StoreFilled / GroupBy / Split([]).
+AUX_THEOREMS = [
+    "Lena.C04.store_yields_filled",
     "Lena.C04.store_yields_what_was_filled",
     "Lena.C04.storeGroup_yields_what_was_filled",
     "Lena.C04.groupBy_yields_internal",
     "Lena.C04.empty_split_yields_flow",
+    "Lena.C04.mkBranches_spec",
+    "Lena.C04.splitInit_inv",
+    "Lena.C04.outputs_append",
+    "Lena.C04.outputs_outsEv",
+    "Lena.C04.schedOKb_iff",
+    "Lena.C04.fillOKb_iff",
+    "Lena.C04.listEqb_iff",
 ]
 TRUSTED = [
     "Lean 4.33.0 kernel; axioms limited to propext, Classical.choice, Quot.sound (audited by #print axioms on every run)",
-    "hand transcription of Split.run/_fill/_compute, Zip._fill, the accumulators' fill/compute and the mutating "
-    "elements into LenaModel/Model/C04.lean at the level of object identity, validated by this correspondence check "
-    "against the id() graph of the real run",
-    "copy.deepcopy as transcribed (new objects, same contents, one memo per call)",
+    "hand transcription of Split.run/_fill/_compute/_request, Zip._fill/_compute, the accumulators' fill/compute (including "
+    "the loops of Mean.compute, Vectorize.compute, SplitIntoBins.compute that copy the context once per value) and the "
+    "mutating elements into LenaModel/Model/C04.lean at the level of object identity, validated by this correspondence "
+    "check against the id() graph of the real run",
+    "copy.deepcopy as transcribed (new objects, same contents, one memo per call); a context is ONE cell of the model, so "
+    "deep versus shallow copying of what is nested in a context is not expressible in the model: that nested objects "
+    "are never shared rests on the harness alone (nested_sharing / mutable_ids on every real run)",
+    "mutable_ids follows dict, list and tuple (values and keys' values); it does not look into sets, deques or attributes "
+    "of other objects — contexts are generated from dict / list / tuple / scalars only",
+    "the driver's tests schedOKb / fillOKb decide SchedOK / FillOK for an equality test of skeletons that decides equality "
+    "(schedOKb_iff, fillOKb_iff); the driver takes equality of the printed skeletons",
     "JSON line protocol encoders (harness/props/c04.py, drivers/C04.lean)",
 ]
 ASSUMPTIONS = [
     "locality of mutation: Python code can only read and mutate objects reachable from references it holds "
-    "(hypothesis `Local` of branch_alone_equiv / split_fill_alone_equiv / zip_fill_alone_equiv; proved for every "
-    "branch of the executable model — harness_branches_local —, an assumption for arbitrary user elements)",
+    "(hypothesis `Local` of branch_alone_equiv / split_fill_alone_equiv / zip_fill_alone_equiv, `LocalF` of "
+    "downstream_updates_harmless_gen; proved for every branch of the executable model — harness_branches_local, "
+    "hOps_localF —, an assumption for arbitrary user elements)",
     "objects nested inside a context or data list belong to that object only (checked on every real run: no nested "
     "mutable object is reachable from two different root objects)",
     "finite flows; the consumer of Split.run does not mutate a yielded value before the run has finished",
+    "exceptions: the only exception the model of Split/Zip handles is LenaStopFill. An invocation that returns another "
+    "exception (Resp.err) ends the real run, while the model of Split.run / _fill / collect goes on; the generic theorems "
+    "therefore describe runs in which no branch raises. harness_branch_alone_equiv is restricted to accumulators that "
+    "cannot raise (canErr = false: not Mean/VarianceMeanCount without pass_on_empty, Vectorize of a list), and "
+    "harness_no_exception proves that then no invocation returns an exception. The driver reports the first exception of "
+    "the modelled run and the harness compares it with the real one (cases with a Mean that is never filled are generated).",
+    "numeric accumulators (Sum, Mean, ...) are filled with integers (the model's dataInt maps other data to 0 where the "
+    "code raises TypeError); such cases are not generated",
     "data of accumulators other than Sum/Count/Mean are opaque (their values are the subject of C09)",
-    "Zip of accumulators: the branches yield exactly one value per compute() or raise (one round of Zip._yield)",
+    "Zip of accumulators: the branches yield exactly one value per compute() or raise (one round of Zip._yield; the "
+    "generators of all branches but the first are never resumed after their first value). Zip on a context that already "
+    "has a 'zip' entry raises TypeError in update_nested (a tuple is assigned to); not a matter of aliasing, not generated",
+    "transcription restrictions of the mutating elements: Variable untyped, on contexts without a typed variable; "
+    "UpdateContext with a two-component key and a scalar value; MakeFilename with a constant name; Count.run only as the "
+    "last element of a sequence",
+    "the static context (LenaSplit._set_context / _get_context, deep-copied per branch) is outside C04 (subject of C13); "
+    "Split.__call__ (Source branches at the head of a flow) is not exercised",
+    "one run per Split object (state kept between two runs of one Split object is covered by the generic theorems only: "
+    "they hold from any branch state); no nested Split/Zip as a branch in split cases (as an accumulator: split_fc, zip, "
+    "Mean(Split), Vectorize(Mean(Split)), SplitIntoBins(Split))",
+    "the FillRequest adapter (lena.core.FillRequest around a fill/compute element; request() yields values computed "
+    "during an earlier fill when buffer_output is set) has no model: it is covered by the oracle on the real code only "
+    "(identity of yielded contexts, mutated run versus twin). downstream_updates_harmless is proved for the accumulators "
+    "themselves (accOps), not for sequences with elements in front (the generic form needs `Tidy` for them).",
+    "split_hist_fresh / acc_yield_fresh: the values filled exist when they are filled (hypotheses FilledOld / hin) — true "
+    "of every Python program; downstream_updates_harmless: the updates are confined to objects of values yielded earlier, "
+    "and no earlier result is filled again (refilling an updated result legitimately changes what follows)",
 ]
 RULE = ("split cases: 0-4 branches of the four kinds (given as explicit sequences or as plain tuples that Split converts), "
         "0-3 mutating elements each (Variable, UpdateContext, MakeFilename, Count, Slice, user mutators of context, of list "
-        "data and of dict data, a user Run element that yields at the end of every run), terminal Sum/Count/Mean/StoreFilled/"
-        "user elements, flows of 0-7 values (bare, with nested contexts, with list or dict data), bufsize in "
-        "{1,2,3,len,len+1,1000,None}, driven by run, by fill+compute/request and through Zip._fill; copy_buf=False and "
-        "aliased flows for the correspondence only; every branch starts with a probe that records whether it was handed "
-        "the caller's objects. accumulator cases: every accumulator kind (Sum, DSum, Count, Mean with four kinds of "
-        "sum_seq, VarianceMeanCount, Vectorize of one element and of a list, Histogram, SplitIntoBins, Graph with and "
-        "without an initial context, StoreFilled in both modes, GroupBy, Zip of 1-3 accumulators with and without fields, "
-        "FillComputeSeq, the FillCompute adapter, Split used through its common-type methods) x histories of up to 8 "
-        "fill/compute/mutate/refill/reset operations (all histories up to 4 operations over a small alphabet are "
-        "enumerated). Besides the object graph of the real run, the driver executes the specification-side definitions "
-        "(handCells/Disj, proj, aloneTrace, aloneFillLife, runHist, fillAll, the instances of FreshYield and Local) and the "
-        "harness compares them with the real run (probes, the branch alone). Non-trivial: at least one yielded value with "
-        "a context and at least one in-place mutation or copy.")
+        "data and of dict data, a user Run element that yields at the end of every run), terminal Sum/Count/Mean (with and "
+        "without pass_on_empty: the latter raises when never filled)/StoreFilled/user elements, flows of 0-7 values (bare, "
+        "with nested contexts incl. tuples of dicts and lists of dicts, with list or dict data), bufsize in "
+        "{1,2,3,len,len+1,1000,None}, driven by run, by fill+compute/request and through Zip._fill; Split built with and "
+        "without the copy_buf keyword (default); copy_buf=False and aliased flows for the correspondence only; every branch "
+        "starts with a probe that records whether it was handed the caller's objects. accumulator cases: every accumulator "
+        "kind (Sum, DSum, Count, Mean with five kinds of sum_seq incl. Split([Sum, Count, Count(, Count)]), "
+        "VarianceMeanCount, Vectorize of one element, of a list and of a multi-valued Mean, Histogram, SplitIntoBins of Sum "
+        "and of Split(k Sums) with under/overflow data, Graph with and without an initial context, StoreFilled in both "
+        "modes, GroupBy, user fill/request elements, Zip of 1-3 accumulators with and without fields, FillComputeSeq, the "
+        "FillCompute and FillRequest adapters, Split used through its common-type methods) x histories of up to 8 "
+        "fill/compute/request/mutate/refill/reset operations, with the same value object filled twice and several values "
+        "sharing one context object (all histories up to 4 operations over a small alphabet are enumerated). Besides the "
+        "object graph of the real run, the driver executes the specification-side definitions (handCells/Disj, proj, "
+        "aloneTrace, aloneFillLife and the alone compute after it, SchedOK/FillOK, runHist, fillAll, the instances of "
+        "FreshYield and Local) and the harness compares them with the real run (probes, the branch alone). Non-trivial: "
+        "at least one yielded value with a context and at least one in-place mutation or copy.")
 CASE_TIMEOUT = 10
 
 warnings.filterwarnings("ignore")
@@ -395,10 +460,16 @@ def build_acc(a, heap=None):
         return lena.core.FillComputeSeq(*([build_step(x, True) for x in a["steps"]] + [build_acc(a["term"])]))
     if k == "fillcompute":
         return lena.core.FillCompute(build_acc(a["of"]))
+    if k == "fillrequest":
+        # the FillRequest adapter around a fill/compute element: request() yields the results for complete blocks of
+        # bufsize values (kept in an output buffer, or recomputed from an input buffer), optionally resetting
+        return lena.core.FillRequest(build_acc(a["of"]), bufsize=a["bufsize"], reset=a["reset"],
+                                     buffer_input=a["bi"], buffer_output=not a["bi"])
     raise ValueError(k)
 
 
-ORACLE_ONLY = ()
+# kinds that have no model: their cases are judged by the oracle on the real code only
+ORACLE_ONLY = ("fillrequest",)
 ALIASING_BY_SPEC = ("store", "keeplast", "reqstore", "store_group", "groupby")
 GROUP_KINDS = ("store_group", "groupby")
 HAS_RESET = ("sum", "dsum", "count", "vmc", "vectorize", "vec_list", "histogram", "store", "store_group", "groupby",
@@ -414,7 +485,7 @@ class GroupSnap(object):
 
 def acc_kind(a):
     """the kind whose data rendering / oracle class applies"""
-    if a["a"] == "fillcompute":
+    if a["a"] in ("fillcompute", "fillrequest"):
         return acc_kind(a["of"])
     if a["a"] == "fcseq":
         return acc_kind(a["term"])
@@ -934,7 +1005,10 @@ def compare(case, res, replies):
                     return "Lean: the hand events of the model trace are not pairwise disjoint (handCells/Disj)"
                 for i, cb in enumerate(chk["branches"]):
                     if not cb["proj_eq"]:
-                        return "Lean: proj %d (trace) differs from aloneTrace / aloneFillLife on the schedule of its hand events" % i
+                        return ("Lean: proj %d (trace, and in fill mode the trace of the following compute/request) differs "
+                                "from aloneTrace / aloneFillLife on the schedule of its hand events" % i)
+                    if not cb.get("sched_ok", True):
+                        return "Lean: the schedule of branch %d read off the hand events is not SchedOK / FillOK" % i
                     if cb["alone"] is not None and "alone" in res and not isinstance(res["alone"][i], dict):
                         if cb["alone"] != model_floats(res["alone"][i][0]) and model_floats(cb["alone"]) != res["alone"][i][0]:
                             return ("branch %d: aloneTrace (Lean) yields %s, the real branch alone yields %s"
@@ -1158,7 +1232,13 @@ ACC_KINDS = [
     {"a": "fcseq", "steps": [{"s": "tag", "name": "a"}, {"s": "count", "name": "c"}], "term": _CNT},
     {"a": "fillcompute", "of": _MEAN}, {"a": "fillcompute", "of": {"a": "histogram"}},
 ]
-ORACLE_ONLY_KINDS = [{"a": "split_fc", "subs": [_SUM, _CNT, _MEAN]}]
+ORACLE_ONLY_KINDS = [
+    {"a": "split_fc", "subs": [_SUM, _CNT, _MEAN]},
+    {"a": "fillrequest", "of": _SUM, "bufsize": 1, "reset": True, "bi": False},
+    {"a": "fillrequest", "of": _SUM, "bufsize": 2, "reset": False, "bi": True},
+    {"a": "fillrequest", "of": _CNT, "bufsize": 1, "reset": False, "bi": True},
+    {"a": "fillrequest", "of": {"a": "mean", "seq": None, "poe": True}, "bufsize": 2, "reset": True, "bi": False},
+]
 REFILL_KINDS = ("sum", "dsum", "count", "store", "keeplast")
 
 
@@ -1180,10 +1260,12 @@ def _acc_ctx(rng, kind, i):
 
 
 def _is_request(acc):
-    return acc["a"] in ("reqsum", "reqstore") or (acc["a"] == "zip" and all(x["a"] == "reqsum" for x in acc["subs"]))
+    return acc["a"] in ("reqsum", "reqstore", "fillrequest") or (acc["a"] == "zip" and all(x["a"] == "reqsum" for x in acc["subs"]))
 
 
 def _can_reset(acc):
+    if acc["a"] == "fillrequest":
+        return _can_reset(acc["of"])
     if acc["a"] == "zip":
         return all(x["a"] == "reqsum" for x in acc["subs"])
     return acc["a"] in HAS_RESET or (acc["a"] == "mean" and not isinstance(acc["seq"], dict))
@@ -1386,13 +1468,19 @@ def shrink(case):
 
 
 # ---- MANIFEST texts ------------------------------------------------------------------------
-LEVEL_TEXT = ("Lean 4 theorems about a shared-heap (object identity) model of Split.run/_fill/_compute, Zip._fill and the "
-              "accumulators, for all branch lists, flows, bufsizes and histories: disjointness of the objects handed to "
-              "the branches, equality of every branch's event trace with its trace when run alone (under locality of "
-              "mutation, proved for the model's elements), freshness of every yielded context; the model is tied to /repo "
-              "by a correspondence check on the id() graph of real runs, plus a direct oracle (branch alone vs inside "
-              "Split; freshness and mutation-robustness of yielded contexts).")
+LEVEL_TEXT = ("Lean 4 theorems about a shared-heap (object identity) model of Split.run/_fill/_compute, Zip._fill/_compute and "
+              "the accumulators, for all branch lists, flows, bufsizes and histories: disjointness of the objects handed to "
+              "the branches; equality of every branch's event trace (run), resp. of its filling events and of what it then "
+              "yields (fill/request, Zip), with the branch run alone (under locality of mutation, proved for the model's "
+              "elements; runs without exceptions other than LenaStopFill); freshness of every yielded context over all "
+              "histories (accumulators incl. multi-valued compute loops, sequences, Zip, Split through fill/compute); "
+              "downstream in-place updates of yielded values change no later response (accumulators). The model is tied to "
+              "/repo by a correspondence check on the id() graph of real runs, plus a direct oracle (branch alone vs inside "
+              "Split; freshness and mutation-robustness of yielded contexts). Not modelled, oracle only: the FillRequest "
+              "adapter; sharing of objects nested inside a context (a context is one cell of the model).")
 LEVEL_NOTE = ("Trusted: Lean kernel (+ propext, Classical.choice, Quot.sound), the hand transcription validated by the "
-              "correspondence runs, locality of mutation for user code, the JSON protocol.")
+              "correspondence runs, locality of mutation for user code, absence of exceptions other than LenaStopFill in "
+              "the generic Split theorems, the id()-graph observation (dict/list/tuple), the JSON protocol. 5 of the "
+              "audited theorems only document specified aliasing (AUX_THEOREMS) and are not counted.")
 TECHNIQUE = "Lean 4 proof over hand-written token/heap model + correspondence check on id() graphs"
 DESIGN_REF = "DESIGN.md section 3, C04"
